@@ -28,7 +28,7 @@ func init() {
 		ID:    "C03",
 		Level: "model_checking",
 		Rule: "choice-tree exploration, NOT canonicalised: every corpus template and every file of the non-canonical corpus (non-canonical number literals, stray semicolons, unsorted import groups, redundant parentheses) x <=1 insertion from the 11-letter whitespace+comment alphabet x 6 whole-file transforms (identity, CRLF, BOM, tabs->spaces, indentation stripped, CRLF+BOM), " +
-			"and x <=2 insertions from {/*c*/, // c, newline} (thorough: <=2 from the full alphabet, <=3 from the small one on small templates); every candidate go/parser accepts is decorated and printed (by a fresh Restorer and by one whose FileSet already holds another file: same text); " +
+			"and x <=2 insertions from {/*c*/, // c, newline} (thorough: <=2 from the full alphabet, <=3 from the small one on small templates); every candidate go/parser accepts is decorated and printed (by a fresh Restorer, by one whose FileSet already holds another file, and printed only after its FileRestorer restored another file: same text); " +
 			"oracle: output parses, token stream (kinds + identifier/literal text, all semicolons by kind, separators before closing delimiters dropped) == that of gofmt(input), comments == input's comments in order modulo whitespace; " +
 			"every template with a //line directive carrying each line number 1..lines+2; plus 7 hanging-indent contexts x every sequence of <=3 (thorough 4) comment lines at 4 indentations x {no blank line, blank line} x {LF, CRLF, spaces}; state = candidate text; non-trivial = candidate that is not already gofmt-canonical",
 		Assumptions: []string{"go/scanner token stream defines 'token sequence'", "comment texts compared with all whitespace removed (the property allows whitespace to differ)"},
@@ -153,7 +153,10 @@ func runC03(ctx *core.Ctx, unit int) {
 			return
 		}
 		gc := GapCase{Src: cand, Template: t.Name, Ins: ins, Variant: variant}
+		// the third print (FileRestorer reuse) for candidates with at most one insertion, untransformed or CRLF
+		c03ThirdPrint = len(ins) <= 1 && (variant == "identity" || variant == "crlf")
 		ctx.Eval(gc, checkC03(cand))
+		c03ThirdPrint = true
 		if len(ins) == 1 && variant == "crlf" {
 			ctx.Sample(gc)
 		}
@@ -307,6 +310,12 @@ func checkC03(src string) core.Outcome {
 	if out2, err2 := roundTripSecondFile(src); err2 == nil && out2 != out {
 		return core.Outcome{Key: "print-depends-on-fileset-position", Desc: fmt.Sprintf("the decorated file prints differently when it is not the first file of the restorer's FileSet\ninput: %q\n%s", src, diffDesc(out, out2))}
 	}
+	// and when the FileRestorer that restored it restores another file before the first one is printed
+	if f3, perr := decorator.Parse(src); c03ThirdPrint && perr == nil {
+		if out3, err3 := printFileFRBeforeAnother(f3, true); err3 == nil && out3 != out {
+			return core.Outcome{Key: "print-changes-after-filerestorer-reuse", Desc: fmt.Sprintf("the restored file prints differently once the FileRestorer that produced it has restored another file\ninput: %q\n%s", src, diffDesc(out, out3))}
+		}
+	}
 	ref, ferr := gofmt(src)
 	if ferr != nil {
 		return core.Outcome{OK: true} // outside the quantifier (cannot happen: src parses)
@@ -396,6 +405,10 @@ func checkC03(src string) core.Outcome {
 }
 
 func sameC03(a, b []c03Tok) bool { return firstTokDiff(a, b) < 0 }
+
+// c03ThirdPrint: whether checkC03 also prints after a FileRestorer reuse (the explorer switches it off for
+// the bulk of multi-insertion and transformed candidates; replays and hanging-indent cases keep it on)
+var c03ThirdPrint = true
 
 // c03RefSwitched counts inputs for which gofmt's own output is a different program (per worker).
 var c03RefSwitched int64
